@@ -40,6 +40,15 @@ def cases(tier):
             rts = [R(n, rt, ["%s x" % pt], "{ return x; }")]
             for at in (["int32_t", "uint64_t", "int8_t"] if tier == "quick" else T8):
                 out.append((rts, P([(at, "a", "input"), ("int64_t", "r", "local")], "r = %s(a);" % n, ["r"]), ("identity", pt, rt, at)))
+    # every spelling of an integer type a signature can use: as parameter (widened in the body) and as return type
+    SPELLINGS = ["int", "unsigned", "size1s_t", "size1u_t", "size2s_t", "size2u_t", "size4s_t", "size4u_t", "size8s_t", "size8u_t"] + (T8 if tier == "thorough" else ["int16_t", "uint16_t"])
+    for sp in SPELLINGS:
+        tag = sp.replace(" ", "_")
+        rts = [R("pw_%s" % tag, "int64_t", ["%s x" % sp], "{ return x; }"), R("rw_%s" % tag, sp, ["int64_t x"], "{ return x; }")]
+        d64 = [("int64_t", "a", "input"), ("int64_t", "r", "local")]
+        out.append((rts, P(d64, "r = pw_%s(a);" % tag, ["r"]), ("spelling-param", sp)))
+        out.append((rts, P(d64, "r = rw_%s(a);" % tag, ["r"]), ("spelling-return", sp)))
+        out.append((rts, P(d64, "r = pw_%s(rw_%s(a)) + 1;" % (tag, tag), ["r"]), ("spelling-both", sp)))
     rts = [R("ar2", "int32_t", ["int32_t x", "int32_t y"], "{ int32_t ar2_t = x * 2; ar2_t = ar2_t + y; return ar2_t; }")]
     d = [("int32_t", "a", "input"), ("int8_t", "b", "input"), ("int64_t", "r", "local")]
     for st in ["r = ar2(a, b);", "r = ar2(b, a);", "r = ar2(a, b) + ar2(b, a);", "r = ar2(ar2(a, b), b);", "r = ar2(a, ar2(b, 3)) + ar2(1, 2) + ar2(a, a);", "RdV = ar2(RsV, siV);", "for (i = 0; i < 3; i++) { r = r + ar2(i, a); }", "r = a; r = ar2(r, b); r = ar2(r, b);"]:
